@@ -9,6 +9,7 @@ CONSTANTS
   BFaults <- BFaultsNone
   Ras <- RasNone
   Modes = {"call"}
+  RunGaps <- GapsNone
   NRuns = 1
   Configs <- ConfigsC04
   RecordHist = TRUE
